@@ -17,6 +17,7 @@ PROPS_FILE = "Props/C04.v"
 IMPORTS = "From Verde Require Import Lib.LinAlgD Model.LeastSquares Model.LSCases Model.Neighbors Model.NeighborCases Model.Invariance Model.InvarianceCases."
 SHARD = 40
 CFACTOR = 1e3
+CFACTOR_F32 = 64.0
 KAPPA_MAX = 1e10
 RULE = ("clouds of 6..24 pairwise distinct points (jittered lattice or uniform doubles, coordinate scale 1..1e4; integer lattices "
         "for the dtype streams), data of varied magnitude (two components for vector gridders), weights log-uniform over two "
@@ -29,6 +30,14 @@ RULE = ("clouds of 6..24 pairwise distinct points (jittered lattice or uniform d
         "scrambled index, nested lists (weights and query), weights in the data's shape or raveled; (extra) a third, large, "
         "varying coordinate array appended for fit and/or predict; (dtype) integer-valued coordinates / data / query as "
         "int64 / int32, including int32 coordinates whose integer powers would overflow (|x|^degree >= 2^31, Trend 2 and 3); "
+        "(dtype-data) for EVERY gridder the data stored as int64 / int32 (integer-valued; both components of vector gridders), "
+        "integer-valued weights stored as int32 / int64, and data stored as float32 (values exactly representable) against the "
+        "float64 base on the same values: usual tolerance (Spline, VectorSpline2D, Linear, Cubic, KNeighbors min/max are "
+        "bit-identical on the unchanged code), 2^-20 x scale where KNeighbors reduces float32 values with numpy's float32 "
+        "mean / median (measured <= 2^-23.7); (dtype-coords-float32, an extra beyond the property's integer dtypes) float32 "
+        "coordinates / coordinates and data / everything / query only, against float64 storage of the SAME float32-representable "
+        "values: verde evaluates coordinate differences and powers in float32 then, so least-squares gridders are held to "
+        "64 * 2^-24 * kappa * scale (measured <= 2e-7 * kappa), Linear / Cubic / KNeighbors to the usual 2^-40 (bit-identical); "
         "(layout-series) pandas Series for coordinates, data and weights of VectorSpline2D and Chain(Vector, VectorSpline2D); "
         "(qshape) query as 2-D, (1,n) against (n,), scalars, 0-d arrays, one-element arrays, and queries "
         "with as many points as the data but another shape; (qbroadcast) for every gridder query easting / northing of "
@@ -338,7 +347,7 @@ def build_inputs(spec, variant):
         weights = None
     else:
         wshape = (e.size,) if v.get("w_ravel") else fshape
-        weights = [relayout(c, wshape, st.get("w", "c")) for c in w]
+        weights = [relayout(c, wshape, st.get("w", "c"), dt.get("w")) for c in w]
     qse = tuple(v.get("q_shape_e", (qe.size,)))
     qsn = tuple(v.get("q_shape_n", (qn.size,)))
     if v.get("q_axis_e") is not None:
@@ -408,6 +417,9 @@ def tolk(g, spec, variant):
     kap = g.kappa(arr(spec["e"]), arr(spec["n"]), flat_w(spec), spec["conf"])
     if not kap <= KAPPA_MAX:
         return None, kap, True
+    if variant and variant.get("float32_arithmetic"):
+        # 64 * 2^-24 * kappa * scale (measured on the unchanged code: <= 2e-7 * kappa), written as C * 2^-52 * kappa * scale
+        return "(TolLS %s %s)" % (cD(CFACTOR_F32 * 2.0 ** 28), cD(kap)), kap, False
     return "(TolLS %s %s)" % (cD(CFACTOR), cD(kap)), kap, False
 
 
@@ -448,8 +460,14 @@ def pair_case(g, spec, variant, stream):
     if g.cubic and variant.get("perm") is not None:
         # CloughTocher's iterative gradient estimation (tol 1e-6) depends on the vertex order: compare at 2^-10
         scale = scale * 2.0 ** 30
+    if variant.get("reduction_in_float32"):
+        # KNeighbors reduces float32 data with numpy's float32 mean / median: the prediction carries a float32
+        # rounding of the result (measured on the unchanged code: <= 7.1e-8 = 2^-23.7 relative); compared at 2^-20
+        scale = scale * 2.0 ** 20
     est = base["est"]
-    if g.model and g.model[0] == "trend" and spec["ncomp"] == 1:
+    if variant.get("reduction_in_float32"):
+        term = "c04_pair %s %s %s %s %s %s" % (tol, cD(scale), cN(spec["ncomp"]), dl(base["flat"]), dl(var["flat"]), shapes)
+    elif g.model and g.model[0] == "trend" and spec["ncomp"] == 1:
         w = spec["w"][0] if spec["w"] is not None else [1.0] * len(spec["e"])
         term = "c04_trend %s %s %s %s %s %s %s %s %s %s %s %s %s" % (
             cN(g.model[1]), dl(spec["e"]), dl(spec["n"]), dl(spec["d"][0]), dl(w), dl(est.coef_), dl(spec["qe"]), dl(spec["qn"]),
@@ -688,6 +706,39 @@ def generate(tier, seed):
             # integer lattice clouds tie for k-d tree queries only at lattice queries: the query stays non-integer here
             spec = problem(rnd, g, n=npts(rnd, name), int_coords="coords" in what, int_data="data" in what)
             cases.append(pair_case(g, spec, v_dtype(rnd, what, j + rep), "dtype-fit/" + name))
+        # dtype of the DATA (and of integer-valued weights) for every gridder: int64 / int32 and float32 storage of
+        # values that are exactly representable there, against the float64 base on the same values
+        for gi, name in enumerate(ALL):
+            g = GRIDDERS[name]
+            it = ["int64", "int32"][(gi + rep) % 2]
+            spec = problem(rnd, g, n=npts(rnd, name), int_data=True, weighted=False)
+            cases.append(pair_case(g, spec, {"dtype": {"d": it}}, "dtype-data-int/" + name))
+            if g.weights:
+                spec = problem(rnd, g, n=npts(rnd, name), int_data=(gi + rep) % 3 == 0, weighted=True)
+                spec["w"] = [[float(rnd.randint(1, 9)) for _ in c] for c in spec["w"]]
+                v = {"dtype": {"w": ["int32", "int64"][(gi + rep) % 2]}}
+                if (gi + rep) % 3 == 0:
+                    v["dtype"]["d"] = it
+                cases.append(pair_case(g, spec, v, "dtype-weights-int/" + name))
+            spec = problem(rnd, g, n=npts(rnd, name), weighted=((gi + rep) % 2 == 0) if g.weights else None)
+            spec["d"] = [np.asarray(c, dtype=np.float32).astype(float).tolist() for c in spec["d"]]
+            v = {"dtype": {"d": "float32"}}
+            if name.startswith("knn-") or name == "vector-knn-linear":   # (in Chain(Trend, KNeighbors) the neighbours see float64 residuals)
+                v["reduction_in_float32"] = True
+            cases.append(pair_case(g, spec, v, "dtype-data-float32/" + name))
+            # float32 COORDINATES (an extra: the property speaks of integer dtypes).  The values are float32-representable
+            # and the base stores the SAME values as float64; verde then evaluates coordinate differences / powers in
+            # float32, so least-squares gridders are compared at the float32 analogue of the usual bound
+            spec = problem(rnd, g, n=npts(rnd, name), weighted=((gi + rep) % 2 == 1) if g.weights else None)
+            for key in ("e", "n", "qe", "qn"):
+                spec[key] = np.asarray(spec[key], dtype=np.float32).astype(float).tolist()
+            spec["d"] = [np.asarray(c, dtype=np.float32).astype(float).tolist() for c in spec["d"]]
+            keys = [["e", "n"], ["e", "n", "d"], ["e", "n", "d", "qe", "qn"], ["qe", "qn"]][(gi + rep) % 4]
+            v = {"dtype": {key: "float32" for key in keys}, "float32_arithmetic": True}
+            if (name.startswith("knn-") or name == "vector-knn-linear") and "d" in keys:
+                v["reduction_in_float32"] = True
+            if len(set(zip(spec["e"], spec["n"]))) == len(spec["e"]):
+                cases.append(pair_case(g, spec, v, "dtype-coords-float32/" + name))
         # query easting / northing of different sizes that broadcast (every gridder)
         for gi, name in enumerate(ALL):
             g = GRIDDERS[name]
